@@ -1,10 +1,13 @@
 #!/bin/sh
 # tools/try_mutant.sh <patch.diff> <property>...   apply a seeded change to /repo, run the checks, undo it.
+# Evidence files are saved and restored: committed evidence must come from the unchanged tree only.
 patch="$1"; shift
 cd /repo || exit 9
 git diff --quiet || { echo "/repo is dirty"; exit 9; }
 git apply "$patch" || { echo "patch does not apply"; exit 9; }
-trap 'git -C /repo checkout -- . ' EXIT INT TERM
+save=$(mktemp -d)
+cp -r /verif/evidence "$save/evidence" 2>/dev/null
+trap 'git -C /repo checkout -- . ; rm -rf /verif/evidence; cp -r "$save/evidence" /verif/evidence; rm -rf "$save"' EXIT INT TERM
 for p in "$@"; do
   echo "=== $p on $(basename $(dirname $patch))/$(basename $patch)"
   /verif/check "$p" ${TIER:+--tier $TIER}; echo "exit=$?"
